@@ -22,6 +22,15 @@ class Reg:
         self.removed_at = None
         self.on_call = None           # extra action executed inside the callback (issuing context = timer)
         self.rets = []
+        self.past = []                # closed epochs: the callable was removed and registered again later
+
+    def new_epoch(self):
+        ep = Reg.__new__(Reg)
+        ep.name, ep.periodic = self.name + '#%d' % (len(self.past) + 1), self.periodic
+        ep.calls, ep.regs, ep.rets = self.calls, self.regs, self.rets
+        ep.removed_at, ep.calls_at_removal = self.removed_at, self.calls_at_removal
+        self.past.append(ep)
+        self.calls, self.regs, self.rets, self.removed_at = [], [], [], None
 
     def __call__(self, cookie):
         self.w.callback_fired()
@@ -59,6 +68,8 @@ def h_timers(ex, ops, horizon=None):
         return regs[name]
 
     def do_add(r, delta):
+        if r.removed_at is not None:
+            r.new_epoch()             # removed and registered again: the calls of the new registration are judged on their own
         r.regs.append((w.now, delta))
         ecu.add_timer(delta, r)
 
@@ -94,7 +105,12 @@ def h_timers(ex, ops, horizon=None):
             out.insert(i, x)
         return out
 
+    epochs = []
     for name, r in sorted(regs.items()):
+        epochs += [(ep.name, ep) for ep in r.past] + [(name, r)]
+    for name, r in epochs:
+        if not r.regs:
+            continue
         info = {'callable': name, 'calls': len(r.calls), 'registrations': len(r.regs)}
         cutoff = r.removed_at if r.removed_at is not None else end
         if r.removed_at is not None:
@@ -247,6 +263,20 @@ def _histories(tier):
     H.append([['0', 'add', 'a+', '100ms'], ['0', 'add@', 'b+', '10ms', 'a+']])
     H.append([['0', 'add', 'o-', '100ms'], ['0', 'add@', 'p+', '100ms', 'o-'], ['0', 'add', 'q+', '300ms']])
     H.append([['0', 'add', 'a+', '100ms'], ['0', 'add', 'b-', '100ms'], ['0', 'add', 'c+', '100ms'], ['0', 'rm@', 'c+', None, 'a+']])
+    # long histories (8..12 operations): duplicates, removal, registration of the same callable again after its removal,
+    # operations from inside callbacks
+    LONG = [
+        [['0', 'add', 'a+', '100ms'], ['0', 'add', 'b-', '300ms'], ['10ms', 'add', 'c+', '300ms'], ['0', 'add', 'a+', '1s'], ['100ms', 'rm', 'b-'],
+         ['0', 'add', 'd-', '100ms'], ['300ms', 'rm', 'a+'], ['0', 'add', 'e+', '300ms'], ['10ms', 'add', 'b-', '100ms'], ['100ms', 'rm', 'c+'],
+         ['0', 'add', 'a+', '300ms'], ['300ms', 'rm', 'e+']],
+        [['0', 'add', 'a+', '300ms'], ['0', 'add', 'a+', '300ms'], ['0', 'add', 'b+', '100ms'], ['100ms', 'rm', 'a+'], ['0', 'add', 'a+', '100ms'],
+         ['0', 'add', 'c-', '300ms'], ['300ms', 'rm', 'b+'], ['10ms', 'add', 'b+', '300ms']],
+        [['0', 'add', 'a+', '100ms'], ['0', 'add', 'b+', '100ms'], ['0', 'add', 'c+', '100ms'], ['0', 'rm@', 'c+', None, 'a+'], ['300ms', 'add', 'c+', '300ms'],
+         ['0', 'add@', 'd-', '100ms', 'b+'], ['100ms', 'rm', 'a+'], ['0', 'add', 'e-', '10ms'], ['10ms', 'rm', 'b+'], ['0', 'add', 'a+', '300ms']],
+        [['0', 'add', 'o-', '10ms'], ['0', 'add', 'p+', '100ms'], ['10ms', 'add', 'o-', '100ms'], ['100ms', 'add', 'q+', '300ms'], ['0', 'rm', 'p+'],
+         ['0', 'add', 'p+', '300ms'], ['10ms', 'add', 'r-', '300ms'], ['300ms', 'rm', 'q+'], ['0', 'rm', 'p+']],
+    ]
+    H += LONG[:1] if tier == 'quick' else LONG
     if tier != 'quick':
         names = [('a+', '100ms'), ('b-', '100ms'), ('c+', '300ms'), ('d-', '300ms'), ('e?', '100ms')]
         for k in (3, 4):
@@ -283,11 +313,11 @@ def jobs(tier):
 
 def meta(tier):
     return {
-        'bounds': ['histories of 1..5 add_timer/remove_timer operations from the list in jv/props/c12.py (_histories), periods from {1,10,100,300 ms,1 s}',
+        'bounds': ['histories of 1..5 add_timer/remove_timer operations from the list in jv/props/c12.py (_histories), plus ' + ('one 12-operation history' if tier == 'quick' else 'four histories of 8..12 operations') + ' (duplicates, removal, re-registration after removal, operations from inside callbacks); periods from {1,10,100,300 ms,1 s}',
                    'scheduling latency of every wake-up: fresh symbolic real in [10 us, 0.4 ms]; gaps between operations: symbolic real in [g, g+0.5 ms] for grid value g',
                    'callback return value: True / False / fresh symbolic bool per call',
                    'subscribe/unsubscribe: registration patterns over two callables with 1..5 entries, PDU2 frame with symbolic PF/GE',
                    'horizon 2 s after the last operation'],
-        'outside': ['histories longer than 5 operations', 'periods shorter than the scheduling latency', 'callbacks that take time (except the overrun shape: one callback busy for 0.55 / 0.7 s next to a 100 / 300 ms periodic timer)'],
+        'outside': ['histories of more than 5 operations other than the listed long ones', 'periods shorter than the scheduling latency', 'callbacks that take time (except the overrun shape: one callback busy for 0.55 / 0.7 s next to a 100 / 300 ms periodic timer)'],
         'assumptions': ['callbacks are instantaneous in virtual time'],
     }
